@@ -3346,7 +3346,11 @@ impl Zeroconf {
                 let service_opt = self
                     .my_services
                     .iter()
-                    .find(|(k, _v)| dns_registry.resolve_name(k.as_str()) == query_name)
+                    .find(|(_k, v)| {
+                        // `name_changes` is keyed by the name as registered, not by
+                        // the lower case key of `my_services`.
+                        dns_registry.resolve_name(v.get_fullname()).to_lowercase() == query_name
+                    })
                     .map(|(_, v)| v);
 
                 let Some(service) = service_opt else {
